@@ -45,6 +45,7 @@ type udpRelay struct {
 	cutAfter atomic.Int64 // <= 0: never
 	count    atomic.Int64 // datagrams seen (both directions)
 	closed   atomic.Bool
+	done     chan struct{} // closed by Close; the flow channels are never closed (readers may still be sending)
 }
 
 type relayFlow struct {
@@ -66,7 +67,7 @@ func newUDPRelay(port int, back *net.UDPAddr) (*udpRelay, error) {
 	}
 	front.SetReadBuffer(4 << 20)
 	front.SetWriteBuffer(4 << 20)
-	r := &udpRelay{front: front, back: back, flows: map[string]*relayFlow{}}
+	r := &udpRelay{front: front, back: back, flows: map[string]*relayFlow{}, done: make(chan struct{})}
 	go r.readFront()
 	return r, nil
 }
@@ -83,14 +84,19 @@ func (r *udpRelay) admit() bool {
 }
 
 func (r *udpRelay) pump(ch chan relayPkt, write func([]byte)) {
-	for p := range ch {
-		if d := time.Until(p.due); d > 0 {
-			time.Sleep(d)
+	for {
+		select {
+		case <-r.done:
+			return
+		case p := <-ch:
+			if d := time.Until(p.due); d > 0 {
+				time.Sleep(d)
+			}
+			if r.closed.Load() {
+				return
+			}
+			write(p.data)
 		}
-		if r.closed.Load() {
-			continue
-		}
-		write(p.data)
 	}
 }
 
@@ -154,10 +160,9 @@ func (r *udpRelay) Close() {
 	}
 	r.front.Close()
 	r.mu.Lock()
+	close(r.done)
 	for _, f := range r.flows {
 		f.up.Close()
-		close(f.c2s)
-		close(f.s2c)
 	}
 	r.mu.Unlock()
 }
